@@ -121,6 +121,7 @@ def call_std_path(I, target, full, args, node):
             return some(Char(v.v if isinstance(v, Int) else v))
         return NONE
     I.havocs.add(full)
+    I.std_calls.append(full)
     return Opaque(full + "()")
 
 
@@ -212,6 +213,7 @@ def call_method(I, r, name, args, node):
     r = I.deref(r)
     if isinstance(r, Opaque):
         I.havocs.add(f"<opaque>.{name}")
+        I.std_calls.append(f"{r.label}.{name}")
         return Opaque(f"{r.label}.{name}()")
     if name == "clone" or name == "cloned" and not isinstance(r, (Enum, IterV)):
         return I.clone(r)
@@ -237,7 +239,20 @@ def call_method(I, r, name, args, node):
     if isinstance(r, Float):
         return float_method(I, r, name, args, node)
     if isinstance(r, RangeV):
+        if name == "contains":
+            used("Range::contains")
+            x = I.deref(args[0])
+            c = True
+            if r.start is not None:
+                c = b_and(c, I.compare(">=", x, r.start, node))
+            if r.end is not None:
+                c = b_and(c, I.compare("<=" if r.inclusive else "<", x, r.end, node))
+            return c
         return iter_method(I, IterV(I.iter_items(r, node)), name, args, node)
+    if isinstance(r, FnRef) and r.kind in ("unknown", "std"):
+        # a constant / static defined outside the extracted files: opaque
+        I.havocs.add(f"{r.name}.{name}")
+        return Opaque(f"{r.name}.{name}()")
     if isinstance(r, tuple) and name == "clone":
         return I.clone(r)
     if isinstance(r, bool) or is_z3bool(r):
@@ -662,6 +677,8 @@ def pow_uf(w):
 def int_method(I, x, name, args, node):
     used("int::" + name)
     a = [I.deref(v) for v in args]
+    if any(isinstance(v, Opaque) for v in a):
+        return I.havoc(f"int.{name}(opaque)")
     if isinstance(x, int):
         if a and isinstance(a[0], Int):
             x = Int(x, a[0].w, a[0].s)
@@ -856,8 +873,10 @@ def map_method(I, m, name, args, node):
         return Int(len(m.entries), 64, False)
     if name == "is_empty":
         return len(m.entries) == 0
-    if name in ("keys",):
+    if name in ("keys", "into_keys"):
         return IterV([k for k, _ in m.entries])
+    if name == "into_values":
+        return IterV([v for _, v in m.entries])
     if name in ("values", "values_mut"):
         return IterV([v for _, v in m.entries])
     if name in ("iter", "iter_mut", "into_iter"):
@@ -963,9 +982,9 @@ def str_slice(I, s, rng, node):
 
 def str_push_str(I, s, other, node):
     o = I.deref(other)
-    if isinstance(o, Opaque):
-        s.s = s.chars() + [Char(z3.BitVec(f"opaque_ch{fresh_id()}", 32))]
-        I.unsupported("push_str of opaque", node)
+    if isinstance(o, Opaque) or (isinstance(o, Str) and o.s is None) or s.s is None:
+        s.s = None      # content unknown from here on: every read of this string is opaque
+        return
     if isinstance(o, Char):
         o = Str([o])
     if s.conc and o.conc:
@@ -1049,6 +1068,15 @@ def str_starts_with_at(I, s_chars, i, pat_chars):
 def str_method(I, s, name, args, node):
     used("str::" + name)
     a = args
+    if s.s is None:
+        if name in ("push", "push_str", "clear"):
+            if name == "clear":
+                s.s = ""
+            return UNIT
+        if name in ("to_owned", "to_string", "clone", "into", "as_str", "as_ref", "borrow"):
+            return Str(None)
+        I.havocs.add("str(unknown)." + name)
+        return Opaque(f"str.{name}()")
     if name == "len":
         return str_len(I, s)
     if name == "is_empty":
